@@ -96,7 +96,7 @@ def classify(prop, results, seed, allow_shrink=True):
             cmds = K.deser_cmds(r["script"])
             metas, groups = r.get("metas") or [{}] * len(cmds), r.get("groups") or []
             best = None
-            if allow_shrink:
+            if allow_shrink and len(violations) < 2:
                 try:
                     cmds, metas, groups, best = K.shrink(cmds, metas, groups, prop, sig)
                 except Exception:
@@ -206,7 +206,7 @@ def _c14_worker(job):
         s.do(1, [rng.choice([0, 1]), []])
         s.ro_check = True
         for i in range(cfg["nw"]):
-            op, args = G.gen_write(rng, s.tr, G.DEFAULT_MIX)
+            op, args = G.gen_write(rng, s.tr, dict(G.DEFAULT_MIX, add_rule=12))
             s.do(op, args)
             if rng.random() < 0.2:
                 s.observe(1, None)
@@ -219,6 +219,13 @@ def _c14_worker(job):
                           (31, [99, [l], 0, 0, 1, None]), (32, [1, 99, [l]]), (33, [l, 1, 1, 1]),
                           (26, [99, [l], 2, None, 0])):
                 s.do(op, a)
+        # the same queries on an index reopened with FEWER rules than its anchors (stale rule flags in the trie)
+        if cfg["backend"] == "f" and not getattr(s, "dead", False):
+            s.do(13, [s.tr.dflt, []])
+            for l in list(dict.fromkeys(s.tr.lrus))[:12] + [G.gen_lru(rng) for _ in range(3)]:
+                s.do(22, [l])
+                s.do(20, [l])
+            s.observe(1, None)
         v = getattr(s, "ro_violations", [])
         res = {"seed": seed, "ncmds": len(s.cmds), "queries": getattr(s, "ro_queries", 0), "ro_violations": v,
                "digest": hash(tuple(K.ser_cmds([c for c in s.cmds if c[0] in C.WRITE_OPS]))) & 0xFFFFFFFF,
